@@ -21,6 +21,9 @@ for _k in ("NO_COLOR", "CLICOLOR", "CLICOLOR_FORCE", "COLORTERM", "CI"):
     ENV.pop(_k, None)
 
 
+_HARNESS_DIR = None
+
+
 class Inconclusive(Exception):
     """Infrastructure problem (build failure, watchdog, tool missing): never a violation."""
 
@@ -31,6 +34,9 @@ def harness_dir():
     rewritten, so that both can be built at the same time."""
     if REPO == "/repo":
         return os.path.join(VERIF, "harness")
+    global _HARNESS_DIR
+    if _HARNESS_DIR:
+        return _HARNESS_DIR
     dst = os.environ.get("VERIF_HARNESS") or (REPO + ".verif-harness")
     src = os.path.join(VERIF, "harness")
     os.makedirs(dst, exist_ok=True)
@@ -51,6 +57,7 @@ def harness_dir():
                     tmp = p + ".new"
                     open(tmp, "w").write(s2)
                     os.replace(tmp, p)
+    _HARNESS_DIR = dst
     return dst
 
 
@@ -63,6 +70,59 @@ def out_dir():
 
 
 _built = set()
+_repo_hash = None
+
+
+def repo_content_hash():
+    """Content hash of the repository sources the harness builds against (independent of file timestamps)."""
+    global _repo_hash
+    if _repo_hash is None:
+        h = hashlib.sha1()
+        root = os.path.join(REPO, "crates")
+        for d, dirs, files in os.walk(root):
+            dirs.sort()
+            if "/target" in d or "/tests" in d or "/benches" in d or "/examples" in d:
+                continue
+            for f in sorted(files):
+                if f.endswith((".rs", ".toml")):
+                    p = os.path.join(d, f)
+                    h.update(os.path.relpath(p, root).encode())
+                    h.update(open(p, "rb").read())
+        _repo_hash = h.hexdigest()
+    return _repo_hash
+
+
+def repo_package_names():
+    names = set()
+    root = os.path.join(REPO, "crates")
+    for c in sorted(os.listdir(root)):
+        m = os.path.join(root, c, "Cargo.toml")
+        if os.path.exists(m):
+            for line in open(m):
+                if line.startswith("name"):
+                    names.add(line.split('"')[1])
+                    break
+    return names
+
+
+def invalidate_if_sources_changed(target_abs):
+    """cargo decides freshness by file timestamps; a working tree whose content changed while the timestamps did not
+    (a restored or copied tree) would silently be run from stale artifacts.  The harness therefore remembers a content
+    hash per build directory and drops the fingerprints of the repository's crates when it differs."""
+    import glob
+    marker = os.path.join(target_abs, ".verif-repo-hash")
+    cur = repo_content_hash()
+    old = open(marker).read().strip() if os.path.exists(marker) else None
+    if old == cur:
+        return False
+    if old is not None:
+        for name in repo_package_names():
+            for fp in glob.glob(os.path.join(target_abs, "**", ".fingerprint", name.replace("_", "-") + "-*"), recursive=True) + \
+                    glob.glob(os.path.join(target_abs, "**", ".fingerprint", name.replace("-", "_") + "-*"), recursive=True):
+                shutil.rmtree(fp, ignore_errors=True)
+    os.makedirs(target_abs, exist_ok=True)
+    open(marker, "w").write(cur)
+    return old is not None
 
 
 def cargo_build(packages, profile="release", target_dir="target", toolchain=None, extra_env=None, extra_args=None, timeout=3600):
@@ -83,6 +143,7 @@ def cargo_build(packages, profile="release", target_dir="target", toolchain=None
     env = dict(ENV)
     env["CARGO_TARGET_DIR"] = os.path.join(hd, target_dir)
     env.update(extra_env or {})
+    invalidate_if_sources_changed(os.path.join(hd, target_dir))
     t0 = time.time()
     r = subprocess.run(cmd, cwd=hd, env=env, stdout=subprocess.PIPE, stderr=subprocess.STDOUT, text=True, timeout=timeout)
     if r.returncode != 0:
